@@ -323,6 +323,10 @@ Definition c10_nca_grad (k d : nat) (L X : list (list fl)) (y : list Z) (loss_im
   fclose f1em9 f1em12 (@nca_loss FOps fexp L X y) loss_impl &&
   fmclose f1em6 (PrimFloat.mul f1em9 (PrimFloat.add PrimFloat.one (fmaxabs grad_impl)))
           (@nca_grad FOps fexp k d L X y) grad_impl.
+Definition c10_mlkr_grad (k d : nat) (L X : list (list fl)) (y : list fl) (loss_impl : fl) (grad_impl : list (list fl)) : bool :=
+  fclose f1em9 f1em12 (@mlkr_loss FOps fexp L X y) loss_impl &&
+  fmclose f1em6 (PrimFloat.mul f1em9 (PrimFloat.add PrimFloat.one (fmaxabs grad_impl)))
+          (@mlkr_grad FOps fexp k d L X y) grad_impl.
 Definition c10_mlkr (L X : list (list fl)) (y : list fl) (loss_impl : fl) : bool :=
   fclose f1em9 f1em12 (@mlkr_obj FOps fexp L X y) loss_impl.
 Definition c10_lmnn (reg : fl) (L X : list (list fl)) (y : list Z) (targets : list (list nat)) (obj_impl : fl) : bool :=
